@@ -9,6 +9,28 @@ SPEC_MAP = [(r"is_newline\((\w+)\)", r"spec_is_newline(*\1)"), (r"shim_byte_is_n
             (r"\(\*(\w+) as char\)\.is_numeric\(\)", r"spec_byte_is_numeric(*\1)"), (r"\(\*(\w+) as char\)\.is_whitespace\(\)", r"spec_byte_is_whitespace(*\1)")]
 
 
+def wrap_scans(f, kind_by_var):
+    """R12: in every `let (VAR, bytes) = parse_until_no_newline(bytes, CLOSURE)` the closure argument is wrapped in the identity
+    function `as_kind(CLOSURE, Ghost(K))`, K = the byte class the grammar prescribes for VAR. Returns the wrapped variable names."""
+    from vf.rustlex import match_close
+    done = []
+    toks = f._toks()
+    for m in re.finditer(r"let\s+\((\w+),\s*\w+\)\s*=\s*parse_until_no_newline\(\s*\w+\s*,\s*", f.orig):
+        var = m.group(1)
+        if var not in kind_by_var:
+            raise AnchorLost("%s: scan into a component `%s` the grammar does not know" % (f.name, var))
+        # the `(` of the call
+        po = f.orig.index("(", f.orig.index("parse_until_no_newline", m.start()))
+        i = next(ix for ix, t in enumerate(toks) if t[1] == po)
+        c = toks[match_close(f.orig, toks, i)][1]
+        f.insert_at(m.end(), "as_kind(", prio=10 ** 9)
+        f.insert_at(c, ", Ghost(%d))" % kind_by_var[var])
+        f.rewrites.append({"rule": "R12", "site": "%s:%d" % (f.file, f.line_of_rel(m.end())), "before": f.orig[m.end():c], "after": "as_kind(.., Ghost(%d))" % kind_by_var[var],
+                           "why": "closure argument wrapped in an identity function that carries the obligation `this closure is byte class %d`" % kind_by_var[var]})
+        done.append(var)
+    return done
+
+
 def char_class_shims(f):
     """`(*c as char).is_whitespace()` => `shim_byte_is_whitespace(*c)` (R2; table validated natively like is_numeric); any number of occurrences"""
     f.replace_all_re(r"\(\*(\w+) as char\)\.is_whitespace\(\)", r"shim_byte_is_whitespace(*\1)", "R2",
@@ -18,9 +40,67 @@ PRIMS = """
 // ---- contracts of the scanning primitives: positive, relational facts about the (closure) predicate ----
 pub open spec fn callable<P: Fn(&u8) -> bool>(p: P) -> bool { forall|b: &u8| #[trigger] p.requires((b,)) }
 // k is the first position where p answers true (or the length if it never does)
+#[verifier::opaque]
 pub open spec fn first_hit<P: Fn(&u8) -> bool>(b: Seq<u8>, p: P, k: int) -> bool {
     0 <= k <= b.len() && (forall|j: int| 0 <= j < k ==> p.ensures((&#[trigger] b[j],), false)) && (k < b.len() ==> p.ensures((&b[k],), true))
 }
+// the bytes before the cut of a line-bounded scan: no line end, no hit
+#[verifier::opaque]
+pub open spec fn scan_facts<P: Fn(&u8) -> bool>(b: Seq<u8>, p: P, k: int) -> bool {
+    forall|j: int| 0 <= j < k ==> !spec_is_newline(#[trigger] b[j]) && p.ensures((&b[j],), false)
+}
+// the bytes before the cut of a number scan are digits
+#[verifier::opaque]
+pub open spec fn digit_run(b: Seq<u8>, k: int) -> bool { forall|j: int| 0 <= j < k ==> spec_byte_is_numeric(#[trigger] b[j]) }
+// the raw (position-level) contracts of the primitives, hidden from the callers that only need the grammar-level facts
+#[verifier::opaque]
+pub open spec fn prefix_raw(bytes: Seq<u8>, prefix: Seq<u8>, ret: Result<&[u8], ParseError>) -> bool {
+    match ret {
+        Ok(rest) => prefix.len() <= bytes.len() && bytes.subrange(0, prefix.len() as int) == prefix && rest@ == bytes.subrange(prefix.len() as int, bytes.len() as int),
+        Err(e) => !(prefix.len() <= bytes.len() && bytes.subrange(0, prefix.len() as int) == prefix) && e.line@ == bytes,
+    }
+}
+#[verifier::opaque]
+pub open spec fn scan_raw<P: Fn(&u8) -> bool>(bytes: Seq<u8>, predicate: P, ret: Result<(&str, &[u8]), ParseError>) -> bool {
+    let k = cut_of(ret); 0 <= k <= bytes.len()
+        && scan_facts(bytes, predicate, k)
+        && match ret {
+            Ok((s, rest)) => valid_utf8(bytes.subrange(0, k)) && str_bytes(s) == bytes.subrange(0, k) && rest@ == bytes.subrange(k, bytes.len() as int)
+                && (k < bytes.len() ==> !spec_is_newline(bytes[k]) && predicate.ensures((&bytes[k],), true)),
+            Err(e) => (!valid_utf8(bytes.subrange(0, k)) || (k < bytes.len() && spec_is_newline(bytes[k]))) && e.line@ == bytes.subrange(0, k)
+                // an error, too, is raised at the stop position: end of input, a line terminator or a hit
+                && (k == bytes.len() || spec_is_newline(bytes[k]) || predicate.ensures((&bytes[k],), true)),
+        }
+}
+#[verifier::opaque]
+pub open spec fn num_raw(bytes: Seq<u8>, ret: Result<(usize, &[u8]), ParseError>) -> bool {
+    let k = match ret { Ok((_, rest)) => bytes.len() - rest@.len(), Err(e) => e.line@.len() as int };
+    0 <= k <= bytes.len()
+        && digit_run(bytes, k) && (k < bytes.len() ==> !spec_byte_is_numeric(bytes[k]))
+        && match ret {
+            Ok((v, rest)) => rest@ == bytes.subrange(k, bytes.len() as int) && valid_utf8(bytes.subrange(0, k)) && spec_parse_usize(bytes.subrange(0, k)) == Some(v),
+            Err(e) => e.line@ == bytes.subrange(0, k) && (!valid_utf8(bytes.subrange(0, k)) || spec_parse_usize(bytes.subrange(0, k)) is None),
+        }
+}
+// the stop predicate `p` of a scan is the byte class `kind` of the grammar (line ends always stop a scan)
+pub open spec fn kind_of<P: Fn(&u8) -> bool>(p: P, kind: int) -> bool {
+    forall|c: u8| (spec_is_newline(c) ==> #[trigger] in_set(kind, c)) && (p.ensures((&c,), true) ==> in_set(kind, c))
+        && (p.ensures((&c,), false) && !spec_is_newline(c) ==> !in_set(kind, c))
+}
+// the stop predicate `p` of a plain `parse_until` is exactly the byte class `kind`
+pub open spec fn kind_exact<P: Fn(&u8) -> bool>(p: P, kind: int) -> bool {
+    forall|c: u8| (p.ensures((&c,), true) ==> #[trigger] in_set(kind, c)) && (p.ensures((&c,), false) ==> !in_set(kind, c))
+}
+fn as_exact<P: Fn(&u8) -> bool>(p: P, Ghost(kind): Ghost<int>) -> (r: P)
+    requires /*@L:stop_predicate_is_the_byte_class_of_this_grammar_position:C05*/ kind_exact(p, kind),
+    ensures r == p, kind_exact(r, kind),
+{ p }
+// R12: identity function wrapped around the closure argument of a scan: it carries the proof obligation "this closure is byte class
+// `kind`" to the call site (where the closure's body is known) and makes the term `kind_of(p, kind)` available to the callee's contract
+fn as_kind<P: Fn(&u8) -> bool>(p: P, Ghost(kind): Ghost<int>) -> (r: P)
+    requires /*@L:stop_predicate_is_the_byte_class_of_this_grammar_position:C05*/ kind_of(p, kind),
+    ensures r == p, kind_of(r, kind),
+{ p }
 // the split position is recoverable from the result: length of the yielded string (Ok) / of the offending slice (Err)
 pub open spec fn cut_of(ret: Result<(&str, &[u8]), ParseError>) -> int {
     match ret { Ok((s, _)) => str_bytes(s).len() as int, Err(e) => e.line@.len() as int }
@@ -56,6 +136,7 @@ pub proof fn lemma_consumed_taken(b0: Seq<u8>, cur: Seq<u8>)
     assert forall|j: int| 0 <= j < k implies !spec_is_newline(#[trigger] b0.subrange(0, k)[j]) by { assert(b0.subrange(0, k)[j] == b0[j]); }
     assert(no_nl(b0.subrange(0, k)));
 }
+#[verifier::opaque]
 pub open spec fn split_ok(b: Seq<u8>, k: int, ret: Result<(&str, &[u8]), ParseError>) -> bool {
     match ret {
         Ok((s, rest)) => valid_utf8(b.subrange(0, k)) && str_bytes(s) == b.subrange(0, k) && rest@ == b.subrange(k, b.len() as int),
@@ -124,12 +205,11 @@ pub struct ExUtf8Error(std::str::Utf8Error);
     f.ret("ret")
     f.props_all = ["C05", "C06"]; f.props_safety = P13
     f.replace_all_re(r"(\w+)\.strip_prefix\((\w+)\)", r"shim_strip_prefix(\1, \2)", "R2", why="<[u8]>::strip_prefix (unstable SlicePattern) behind a shim", min_count=1)
-    f.contract("""    ensures /*@L:strips_exactly_the_prefix_or_errors:C05,C06*/ match ret {
-        Ok(rest) => prefix@.len() <= bytes@.len() && bytes@.subrange(0, prefix@.len() as int) == prefix@ && rest@ == bytes@.subrange(prefix@.len() as int, bytes@.len() as int),
-        Err(e) => !(prefix@.len() <= bytes@.len() && bytes@.subrange(0, prefix@.len() as int) == prefix@) && e.line@ == bytes@,
-    },
+    f.contract("""    ensures /*@L:strips_exactly_the_prefix_or_errors:C05,C06*/ prefix_raw(bytes@, prefix@, ret),
+        ret is Ok ==> ret->Ok_0@.len() + prefix@.len() == bytes@.len(),
+        /*@L:prefix_step_is_the_reference_strip:C05*/ match ret { Ok(rest) => strip(bytes@, prefix@) == Some(rest@), Err(_) => strip(bytes@, prefix@) is None },
         /*@L:prefix_step_stays_within_the_line:C06*/ (ret is Ok && no_nl(prefix@)) ==> consumed_clean(bytes@, ret->Ok_0@),""")
-    f.before_tail("""proof { if no_nl(prefix@) && prefix@.len() <= bytes@.len() && bytes@.subrange(0, prefix@.len() as int) == prefix@ {
+    f.before_tail("""proof { reveal(prefix_raw); reveal(strip); if no_nl(prefix@) && prefix@.len() <= bytes@.len() && bytes@.subrange(0, prefix@.len() as int) == prefix@ {
         assert forall|j: int| 0 <= j < prefix@.len() implies !spec_is_newline(#[trigger] bytes@[j]) by { assert(bytes@[j] == bytes@.subrange(0, prefix@.len() as int)[j]); }
         lemma_consumed_intro(bytes@, bytes@.subrange(prefix@.len() as int, bytes@.len() as int), prefix@.len() as int); } }
     """)
@@ -142,12 +222,28 @@ pub struct ExUtf8Error(std::str::Utf8Error);
     f.replace_all_re(r"(\w+)\.iter\(\)\.position\(", r"shim_slice_position(\1, ", "R2", min_count=1)
     f.replace_all_re(r"&\[\] as &\[u8\]", "shim_empty_u8()", "R2", why="`&[] as &[u8]` (array-to-slice cast in an expression) behind a shim", min_count=1)
     f.contract("""    requires callable(predicate),
-    ensures /*@L:splits_at_the_first_hit:C05,C06*/ first_hit(bytes@, predicate, cut_of(ret)) && split_ok(bytes@, cut_of(ret), ret),""")
+    ensures /*@L:splits_at_the_first_hit:C05,C06*/ first_hit(bytes@, predicate, cut_of(ret)) && split_ok(bytes@, cut_of(ret), ret),
+        /*@L:split_position_is_the_reference_scan:C05*/ forall|kind: int| #[trigger] kind_exact(predicate, kind) ==> find_first(bytes@, kind) == cut_of(ret)
+            && match ret { Ok((s, rest)) => sp_until(bytes@, kind) == Some((str_bytes(s), rest@)), Err(_) => sp_until(bytes@, kind) is None },
+        ret is Ok ==> ret->Ok_0.1@.len() <= bytes@.len(),
+        /*@L:scan_to_the_line_end_stays_within_the_line:C06*/ (kind_exact(predicate, 0) && ret is Ok) ==> consumed_clean(bytes@, ret->Ok_0.1@) && str_no_nl(ret->Ok_0.0),""")
     f.after_stmt("let (slice, rest) = match", """    proof {
         let k = slice@.len() as int;
         assert(slice@ =~= bytes@.subrange(0, k));
         assert(rest@ =~= bytes@.subrange(k, bytes@.len() as int));
-        assert(first_hit(bytes@, predicate, k));
+        assert(first_hit(bytes@, predicate, k)) by { reveal(first_hit); }
+        reveal(split_ok); reveal(sp_until);
+        assert forall|kind: int| #[trigger] kind_exact(predicate, kind) implies find_first(bytes@, kind) == k by {
+            reveal(first_hit);
+            assert forall|j: int| 0 <= j < k implies !in_set(kind, #[trigger] bytes@[j]) by { }
+            lemma_find_first(bytes@, kind, k);
+        }
+        if kind_exact(predicate, 0) {
+            reveal(first_hit); reveal(str_no_nl);
+            assert forall|j: int| 0 <= j < k implies !spec_is_newline(#[trigger] bytes@[j]) by { assert(!in_set(0, bytes@[j])); }
+            lemma_consumed_intro(bytes@, rest@, k);
+            assert forall|j: int| 0 <= j < k implies !spec_is_newline(#[trigger] slice@[j]) by { assert(slice@[j] == bytes@[j]); }
+        }
     }
 """)
     u.emit(f)
@@ -161,17 +257,14 @@ pub struct ExUtf8Error(std::str::Utf8Error);
                     !r ==> (!spec_is_newline(*byte) && predicate.ensures((byte,), false)),
                     r && !spec_is_newline(*byte) ==> predicate.ensures((byte,), true),""")
     f.contract("""    requires callable(predicate),
-    ensures /*@L:stops_at_hit_and_never_crosses_a_line_end:C05,C06*/ ({ let k = cut_of(ret); 0 <= k <= bytes@.len()
-        && (forall|j: int| 0 <= j < k ==> !spec_is_newline(#[trigger] bytes@[j]) && predicate.ensures((&bytes@[j],), false))
-        && match ret {
-            Ok((s, rest)) => valid_utf8(bytes@.subrange(0, k)) && str_bytes(s) == bytes@.subrange(0, k) && rest@ == bytes@.subrange(k, bytes@.len() as int)
-                && (k < bytes@.len() ==> !spec_is_newline(bytes@[k]) && predicate.ensures((&bytes@[k],), true)),
-            Err(e) => (!valid_utf8(bytes@.subrange(0, k)) || (k < bytes@.len() && spec_is_newline(bytes@[k]))) && e.line@ == bytes@.subrange(0, k)
-                // an error, too, is raised at the stop position: end of input, a line terminator or a hit
-                && (k == bytes@.len() || spec_is_newline(bytes@[k]) || predicate.ensures((&bytes@[k],), true)),
-        } }),
+    ensures /*@L:stops_at_hit_and_never_crosses_a_line_end:C05,C06*/ scan_raw(bytes@, predicate, ret),
+        ret is Ok ==> ret->Ok_0.1@.len() <= bytes@.len(),
+        /*@L:scan_is_the_reference_word_scan:C05*/ forall|kind: int| #[trigger] kind_of(predicate, kind) ==> match ret {
+            Ok((s, rest)) => sp_word(bytes@, kind) == Some((str_bytes(s), rest@)),
+            Err(_) => sp_word(bytes@, kind) is None,
+        },
         /*@L:scan_step_stays_within_the_line:C06*/ ret is Ok ==> consumed_clean(bytes@, ret->Ok_0.1@) && str_no_nl(ret->Ok_0.0),""")
-    f.body_start("let ghost b0 = bytes@;\n")
+    f.body_start("let ghost b0 = bytes@;\n    proof { lemma_find_first_allk(b0); reveal(first_hit); reveal(scan_facts); reveal(scan_raw); reveal(split_ok); reveal(sp_word); }\n")
     mnl = re.search(r"if\s+!(\w+)\.is_empty\(\)\s*&&\s*is_newline\(&\1\[0\]\)", f.orig)
     if not mnl:
         raise AnchorLost("parse_until_no_newline: the line-end test `if !rest.is_empty() && is_newline(&rest[0])` was not found")
@@ -195,19 +288,19 @@ pub struct ExUtf8Error(std::str::Utf8Error);
     f.replace_all_re(r"&\[\] as &\[u8\]", "shim_empty_u8()", "R2", min_count=1)
     f.replace_all_re(r"\bs\.parse\(\)", "shim_parse_usize(s)", "R2", why="str::parse::<usize> behind a shim with an abstract result", min_count=1)
     f.closure("|c|", params="|c: &u8|", ret="r: bool", spec="ensures r == ({specbody})", spec_map=[(r"\(\*(\w+) as char\)\.is_numeric\(\)", r"spec_byte_is_numeric(*\1)")])
-    f.contract("""    ensures /*@L:number_is_the_maximal_digit_run:C05,C06*/ ({ let k = match ret { Ok((_, rest)) => bytes@.len() - rest@.len(), Err(e) => e.line@.len() as int };
-        0 <= k <= bytes@.len()
-        && (forall|j: int| 0 <= j < k ==> spec_byte_is_numeric(#[trigger] bytes@[j])) && (k < bytes@.len() ==> !spec_byte_is_numeric(bytes@[k]))
-        && match ret {
-            Ok((v, rest)) => rest@ == bytes@.subrange(k, bytes@.len() as int) && valid_utf8(bytes@.subrange(0, k)) && spec_parse_usize(bytes@.subrange(0, k)) == Some(v),
-            Err(e) => e.line@ == bytes@.subrange(0, k) && (!valid_utf8(bytes@.subrange(0, k)) || spec_parse_usize(bytes@.subrange(0, k)) is None),
-        } }),
+    f.contract("""    ensures /*@L:number_is_the_maximal_digit_run:C05,C06*/ num_raw(bytes@, ret),
+        ret is Ok ==> ret->Ok_0.1@.len() <= bytes@.len(),
+        /*@L:number_step_is_the_reference_number_scan:C05*/ match ret { Ok((v, rest)) => sp_num(bytes@) == Some((v, rest@)), Err(_) => sp_num(bytes@) is None },
         /*@L:number_step_stays_within_the_line:C06*/ ret is Ok ==> consumed_clean(bytes@, ret->Ok_0.1@),""")
     f.after_stmt("let (slice, rest) = match", """    proof {
         let k = slice@.len() as int;
         assert(slice@ =~= bytes@.subrange(0, k));
         assert(rest@ =~= bytes@.subrange(k, bytes@.len() as int));
         lemma_consumed_intro(bytes@, rest@, k);
+        reveal(digit_run); reveal(num_raw); reveal(sp_num);
+        assert forall|j: int| 0 <= j < k implies !in_set(6, #[trigger] bytes@[j]) by { assert(slice@[j] == bytes@[j]); }
+        if k < bytes@.len() { assert(rest@[0] == bytes@[k]); }
+        lemma_find_first(bytes@, 6, k);
     }
 """)
     u.emit(f)
@@ -220,6 +313,12 @@ pub struct ExUtf8Error(std::str::Utf8Error);
     for txt, val in LITS:
         ax.append("        %s@ == seq![%s],\n" % (txt, ", ".join("%du8" % b for b in val)))
     ax.append("        str_bytes(\"sourceFile\") == seq![%s],\n" % ", ".join("%du8" % b for b in b"sourceFile"))
+    ax.append("{}\n")
+    # the short literals only (the 32-byte JSON prefix is needed by the header parser alone and is expensive to carry around)
+    ax.append("#[verifier::external_body]\npub proof fn axiom_byte_literals_short()\n    ensures\n")
+    for txt, val in LITS:
+        if len(val) <= 4 and txt.startswith('b"'):
+            ax.append("        %s@ == seq![%s],\n" % (txt, ", ".join("%du8" % b for b in val)))
     ax.append("{}\n")
     u.raw("".join(ax), "literal_axioms")
     c = mp.item("const", "SOURCE_FILE_PREFIX")
@@ -234,28 +333,6 @@ pub open spec fn class_line(bytes: Seq<u8>, o: Seq<u8>, b: Seq<u8>, tail: Seq<u8
     bytes == o + lit_arrow() + b + lit_colon() + tail
     && (forall|j: int| 0 <= j < o.len() ==> o[j] != 32u8 && !spec_is_newline(#[trigger] o[j]))
     && (forall|j: int| 0 <= j < b.len() ==> b[j] != 58u8 && !spec_is_newline(#[trigger] b[j]))
-}
-// the shape of any decomposition of `bytes` as a class line (used for: every well-formed class line is accepted)
-pub proof fn lemma_class_line_shape(bytes: Seq<u8>)
-    ensures forall|o: Seq<u8>, b: Seq<u8>, tail: Seq<u8>| #[trigger] class_line(bytes, o, b, tail) ==> {
-        &&& o.len() + 4 + b.len() + 1 + tail.len() == bytes.len()
-        &&& bytes.subrange(0, o.len() as int) == o
-        &&& forall|j: int| 0 <= j < o.len() ==> #[trigger] bytes[j] == o[j]
-        &&& bytes[o.len() as int] == 32u8
-        &&& bytes.subrange(o.len() as int, bytes.len() as int) == lit_arrow() + b + lit_colon() + tail
-    },
-{
-    assert forall|o: Seq<u8>, b: Seq<u8>, tail: Seq<u8>| #[trigger] class_line(bytes, o, b, tail) implies ({
-        &&& o.len() + 4 + b.len() + 1 + tail.len() == bytes.len()
-        &&& bytes.subrange(0, o.len() as int) == o
-        &&& forall|j: int| 0 <= j < o.len() ==> #[trigger] bytes[j] == o[j]
-        &&& bytes[o.len() as int] == 32u8
-        &&& bytes.subrange(o.len() as int, bytes.len() as int) == lit_arrow() + b + lit_colon() + tail
-    }) by {
-        assert(bytes.subrange(0, o.len() as int) =~= o);
-        assert(bytes[o.len() as int] == lit_arrow()[0]);
-        assert(bytes.subrange(o.len() as int, bytes.len() as int) =~= lit_arrow() + b + lit_colon() + tail);
-    }
 }
 pub proof fn lemma_after_arrow(r1: Seq<u8>, b: Seq<u8>, tail: Seq<u8>)
     requires r1 == lit_arrow() + b + lit_colon() + tail,
@@ -275,6 +352,60 @@ pub proof fn lemma_after_arrow(r1: Seq<u8>, b: Seq<u8>, tail: Seq<u8>)
 }
 // what follows the class line's `:` (normally the line terminator and the rest of the file)
 pub open spec fn class_tail(bytes: Seq<u8>, o: Seq<u8>, b: Seq<u8>) -> Seq<u8> { bytes.subrange((o.len() + 4 + b.len() + 1) as int, bytes.len() as int) }
+// the reference parser of class lines: (original, obfuscated, what follows the `:`)
+pub open spec fn class_spec(b: Seq<u8>) -> Option<(Seq<u8>, Seq<u8>, Seq<u8>)> {
+    match sp_word(b, 3) { None => None, Some((o, b1)) =>
+    match strip(b1, lit_arrow()) { None => None, Some(b2) =>
+    match sp_word(b2, 2) { None => None, Some((ob, b3)) =>
+    match strip(b3, lit_colon()) { None => None, Some(b4) => Some((o, ob, b4)) } } } }
+}
+// what the reference parser accepts has the documented shape: `o -> b:` with no space / line end in o and no `:` / line end in b
+pub proof fn lemma_class_spec_sound(bytes: Seq<u8>)
+    ensures match class_spec(bytes) {
+        Some((o, b, tail)) => class_line(bytes, o, b, tail) && tail == class_tail(bytes, o, b),
+        None => true,
+    },
+{
+    reveal(strip); reveal(sp_word);
+    match class_spec(bytes) {
+        Some((o, b, tail)) => {
+            let n = find_first(bytes, 3);
+            lemma_find_first_props(bytes, 3);
+            let b1 = bytes.subrange(n, bytes.len() as int);
+            let b2 = b1.subrange(4, b1.len() as int);
+            let m = find_first(b2, 2);
+            lemma_find_first_props(b2, 2);
+            let b3 = b2.subrange(m, b2.len() as int);
+            assert(bytes =~= o + lit_arrow() + b + lit_colon() + tail);
+            assert forall|j: int| 0 <= j < o.len() implies o[j] != 32u8 && !spec_is_newline(#[trigger] o[j]) by { assert(o[j] == bytes[j]); }
+            assert forall|j: int| 0 <= j < b.len() implies b[j] != 58u8 && !spec_is_newline(#[trigger] b[j]) by { assert(b[j] == b2[j]); }
+            assert(bytes.subrange((o.len() + 4 + b.len() + 1) as int, bytes.len() as int) =~= tail);
+        },
+        None => {},
+    }
+}
+// every well-formed class line (any decomposition per the documented grammar) is accepted by the reference parser
+pub proof fn lemma_class_line_accepted(bytes: Seq<u8>, o: Seq<u8>, b: Seq<u8>, tail: Seq<u8>)
+    requires class_line(bytes, o, b, tail), valid_utf8(o), valid_utf8(b),
+    ensures /*@L:every_well_formed_class_line_is_accepted:C05*/ class_spec(bytes) == Some((o, b, tail)),
+{
+    reveal(strip); reveal(sp_word);
+    let n = o.len() as int;
+    assert(bytes[n] == lit_arrow()[0]);
+    assert forall|j: int| 0 <= j < n implies !in_set(3, #[trigger] bytes[j]) by { assert(bytes[j] == o[j]); }
+    lemma_find_first(bytes, 3, n);
+    assert(bytes.subrange(0, n) =~= o);
+    let b1 = bytes.subrange(n, bytes.len() as int);
+    assert(b1 =~= lit_arrow() + b + lit_colon() + tail);
+    lemma_after_arrow(b1, b, tail);
+    let b2 = b + lit_colon() + tail;
+    assert(b1.subrange(4, b1.len() as int) == b2);
+    let m = b.len() as int;
+    assert forall|j: int| 0 <= j < m implies !in_set(2, #[trigger] b2[j]) by { assert(b2[j] == b[j]); }
+    lemma_find_first(b2, 2, m);
+    let b3 = lit_colon() + tail;
+    assert(b3.subrange(1, b3.len() as int) =~= tail);
+}
 """
     u.raw(GRAMMAR, "grammar")
 
@@ -293,62 +424,31 @@ pub open spec fn class_tail(bytes: Seq<u8>, o: Seq<u8>, b: Seq<u8>) -> Seq<u8> {
             Ok((_, _)) => false,
             Err(_) => true,
         },
-        /*@L:every_well_formed_class_line_is_accepted:C05*/ forall|o: Seq<u8>, b: Seq<u8>, tail: Seq<u8>|
-            #[trigger] class_line(bytes@, o, b, tail) && valid_utf8(o) && valid_utf8(b) ==> ret is Ok,
+        /*@L:class_line_is_accepted_iff_the_reference_grammar_accepts_it:C05*/ match ret {
+            Ok((ProguardRecord::Class { original, obfuscated }, rest)) => match class_spec(bytes@) {
+                Some(cs) => cs.0 == str_bytes(original) && cs.1 == str_bytes(obfuscated) && rest@ == skip_nl(cs.2), None => false },
+            Ok((_, _)) => false,
+            Err(_) => class_spec(bytes@) is None,
+        },
         /*@L:class_names_have_no_line_terminator:C06*/ match ret { Ok((ProguardRecord::Class { original, obfuscated }, _)) => str_no_nl(original) && str_no_nl(obfuscated), _ => true },
         /*@L:class_record_taken_within_first_line:C06*/ ret is Ok ==> taken_within_first_line(bytes@, ret->Ok_0.1@),""")
-    f.body_start("let ghost b0 = bytes@;\n    proof { axiom_byte_literals(); lemma_class_line_shape(b0); }\n")
+    wrap_scans(f, {"original": 3, "obfuscated": 2})
+    f.body_start("let ghost b0 = bytes@;\n    proof { axiom_byte_literals_short(); assert(no_nl(b\" -> \"@) && no_nl(b\":\"@)); }\n")
     f.after_stmt("let (original, bytes) =", """    let ghost b1 = bytes@;
-    proof {
-        assert forall|o: Seq<u8>, b: Seq<u8>, tail: Seq<u8>| #[trigger] class_line(b0, o, b, tail) implies
-            /*@L:class_line_pieces_are_found_where_the_grammar_puts_them:C05*/ str_bytes(original).len() == o.len() && b1 == lit_arrow() + b + lit_colon() + tail && b1.len() >= 4 && b1.subrange(0, 4) == lit_arrow() by {
-            let k = str_bytes(original).len() as int;
-            if k > o.len() { assert(b0[o.len() as int] == 32u8); }
-            if k < o.len() { assert(b0[k] == o[k]); }
-            lemma_after_arrow(lit_arrow() + b + lit_colon() + tail, b, tail);
-        }
-    }
+    proof { /*@L:original_class_name_is_the_reference_word:C05*/ assert(sp_word(b0, 3) == Some((str_bytes(original), b1))); }
 """)
-    f.after_stmt("let bytes = parse_prefix(bytes,", """    let ghost b2 = bytes@;
-    proof {
-        assert forall|o: Seq<u8>, b: Seq<u8>, tail: Seq<u8>| #[trigger] class_line(b0, o, b, tail) implies
-            /*@L:class_line_pieces_are_found_where_the_grammar_puts_them:C05*/ b2 == b + lit_colon() + tail && b2[b.len() as int] == 58u8 && (forall|j: int| 0 <= j < b.len() ==> #[trigger] b2[j] == b[j]) && b2.subrange(0, b.len() as int) == b by {
-            lemma_after_arrow(b1, b, tail);
-        }
-    }
-""", occ=1)
+    f.after_stmt("let bytes = parse_prefix(bytes,", "    let ghost b2 = bytes@;\n", occ=1)
     f.after_stmt("let (obfuscated, bytes) =", """    let ghost b3 = bytes@;
-    proof {
-        assert forall|o: Seq<u8>, b: Seq<u8>, tail: Seq<u8>| #[trigger] class_line(b0, o, b, tail) implies
-            /*@L:class_line_pieces_are_found_where_the_grammar_puts_them:C05*/ b3 == lit_colon() + tail && b3.len() >= 1 && b3.subrange(0, 1) == lit_colon() by {
-            let k = str_bytes(obfuscated).len() as int;
-            lemma_after_arrow(b1, b, tail);
-            if k > b.len() { assert(b2[b.len() as int] == 58u8); }
-            if k < b.len() { assert(b2[k] == b[k]); }
-        }
-    }
+    proof { /*@L:obfuscated_class_name_is_the_reference_word:C05*/ assert(sp_word(b2, 2) == Some((str_bytes(obfuscated), b3))); }
 """)
     f.after_stmt("let bytes = parse_prefix(bytes,", "    let ghost b4 = bytes@;\n", occ=2)
     f.insert_before("Ok((record,", """proof {
         let o = str_bytes(original); let b = str_bytes(obfuscated);
-        assert(b0 =~= o + b1);
-        assert(b1 =~= lit_arrow() + b2);
-        assert(b2 =~= b + b3);
-        assert(b3 =~= lit_colon() + b4);
-        assert(b0 =~= o + lit_arrow() + b + lit_colon() + b4);
-        assert forall|j: int| 0 <= j < o.len() implies o[j] != 32u8 && !spec_is_newline(#[trigger] o[j]) by { assert(o[j] == b0[j]); }
-        assert forall|j: int| 0 <= j < b.len() implies b[j] != 58u8 && !spec_is_newline(#[trigger] b[j]) by { assert(b[j] == b2[j]); }
-        let k = (o.len() + 4 + b.len() + 1) as int;
-        assert(b0.subrange(k, b0.len() as int) =~= b4);
-        assert(class_tail(b0, o, b) == b4);
-        assert(class_line(b0, o, b, b4));
-        assert forall|j: int| 0 <= j < k implies !spec_is_newline(#[trigger] b0.subrange(0, k)[j]) by {
-            if j < o.len() { assert(b0[j] == o[j]); }
-            else if j < o.len() + 4 { assert(b0[j] == lit_arrow()[j - o.len()]); }
-            else if j < o.len() + 4 + b.len() { assert(b0[j] == b[j - o.len() - 4]); }
-            else { assert(b0[j] == 58u8); }
-        }
-        assert(no_nl(b0.subrange(0, k)));
+        assert(class_spec(b0) == Some((o, b, b4)));
+        /*@L:accepted_class_line_has_the_documented_shape:C05*/ lemma_class_spec_sound(b0);
+        // line-boundary discipline (C06): every step consumed bytes that contain no line terminator
+        lemma_consumed_refl(b0); lemma_consumed_trans(b0, b0, b1); lemma_consumed_trans(b0, b1, b2); lemma_consumed_trans(b0, b2, b3); lemma_consumed_trans(b0, b3, b4);
+        lemma_consumed_taken(b0, b4);
     }
     """)
     u.emit(f)
@@ -383,12 +483,35 @@ pub proof fn lemma_find_first(b: Seq<u8>, kind: int, k: int)
         lemma_find_first(t, kind, k - 1);
     }
 }
+// the defining properties of find_first
+pub proof fn lemma_find_first_props(b: Seq<u8>, kind: int)
+    ensures 0 <= find_first(b, kind) <= b.len(),
+        forall|j: int| 0 <= j < find_first(b, kind) ==> !in_set(kind, #[trigger] b[j]),
+        find_first(b, kind) < b.len() ==> in_set(kind, b[find_first(b, kind)]),
+    decreases b.len()
+{
+    if b.len() == 0 || in_set(kind, b[0]) { } else {
+        let t = b.subrange(1, b.len() as int);
+        lemma_find_first_props(t, kind);
+        assert forall|j: int| 0 <= j < find_first(b, kind) implies !in_set(kind, #[trigger] b[j]) by { if j > 0 { assert(b[j] == t[j - 1]); } }
+    }
+}
 // lemma_find_first for every candidate position at once (used on error paths, where no proof code can be inserted)
 pub proof fn lemma_find_first_all(b: Seq<u8>, kind: int)
     ensures forall|k: int| (0 <= k <= b.len() && (#[trigger] b.subrange(0, k)).len() == k
         && (forall|j: int| 0 <= j < k ==> !in_set(kind, #[trigger] b[j])) && (k < b.len() ==> in_set(kind, b[k]))) ==> find_first(b, kind) == k,
 {
     assert forall|k: int| (0 <= k <= b.len() && (#[trigger] b.subrange(0, k)).len() == k
+        && (forall|j: int| 0 <= j < k ==> !in_set(kind, #[trigger] b[j])) && (k < b.len() ==> in_set(kind, b[k]))) implies find_first(b, kind) == k by {
+        lemma_find_first(b, kind, k);
+    }
+}
+// ... and for every byte class at once
+pub proof fn lemma_find_first_allk(b: Seq<u8>)
+    ensures forall|kind: int, k: int| #![trigger find_first(b, kind), b.subrange(0, k)] (0 <= k <= b.len() && b.subrange(0, k).len() == k
+        && (forall|j: int| 0 <= j < k ==> !in_set(kind, #[trigger] b[j])) && (k < b.len() ==> in_set(kind, b[k]))) ==> find_first(b, kind) == k,
+{
+    assert forall|kind: int, k: int| #![trigger find_first(b, kind), b.subrange(0, k)] (0 <= k <= b.len() && b.subrange(0, k).len() == k
         && (forall|j: int| 0 <= j < k ==> !in_set(kind, #[trigger] b[j])) && (k < b.len() ==> in_set(kind, b[k]))) implies find_first(b, kind) == k by {
         lemma_find_first(b, kind, k);
     }
@@ -441,6 +564,125 @@ pub proof fn lemma_taken(b: Seq<u8>, k: int, rest: Seq<u8>)
     requires 1 <= k <= b.len(), no_nl(b.subrange(0, k)), rest == skip_nl(b.subrange(k, b.len() as int)),
     ensures taken_within_first_line(b, rest),
 {}
+// ---- reference grammar of member lines (C05) ----
+//   `    ` [START `:` END `:`] TYPE ` ` NAME [ `(` ARGS `)` [ `:` OSTART [ `:` OEND ] ] ] ` -> ` OBFUSCATED  line-end
+pub open spec fn lit_4sp() -> Seq<u8> { seq![32u8, 32u8, 32u8, 32u8] }
+pub open spec fn lit_sp() -> Seq<u8> { seq![32u8] }
+pub open spec fn lit_lp() -> Seq<u8> { seq![40u8] }
+pub open spec fn lit_rp() -> Seq<u8> { seq![41u8] }
+#[verifier::opaque]
+pub open spec fn strip(b: Seq<u8>, p: Seq<u8>) -> Option<Seq<u8>> { if has_prefix(b, p) { Some(b.subrange(p.len() as int, b.len() as int)) } else { None } }
+// a number: the maximal run of digit bytes, which must parse
+#[verifier::opaque]
+pub open spec fn sp_num(b: Seq<u8>) -> Option<(usize, Seq<u8>)> {
+    let d = find_first(b, 6); let s = b.subrange(0, d);
+    if valid_utf8(s) && spec_parse_usize(s) is Some { Some((spec_parse_usize(s)->0, b.subrange(d, b.len() as int))) } else { None }
+}
+// a word: everything up to the first byte of the class `kind` (3: space, 4: space or `(`, 5: `)`), which must not be a line end
+#[verifier::opaque]
+pub open spec fn sp_word(b: Seq<u8>, kind: int) -> Option<(Seq<u8>, Seq<u8>)> {
+    let k = find_first(b, kind);
+    if (k < b.len() && spec_is_newline(b[k])) || !valid_utf8(b.subrange(0, k)) { None } else { Some((b.subrange(0, k), b.subrange(k, b.len() as int))) }
+}
+pub open spec fn st_start(b: Seq<u8>) -> (Option<usize>, Seq<u8>) { match sp_num(b) { Some((v, r)) => (Some(v), r), None => (None, b) } }
+pub open spec fn st_end(start: Option<usize>, b: Seq<u8>) -> Option<(Option<usize>, Seq<u8>)> {
+    match start {
+        None => Some((None, b)),
+        Some(_) => match strip(b, lit_colon()) { None => None, Some(c1) => match sp_num(c1) { None => None, Some((e, c2)) =>
+            match strip(c2, lit_colon()) { None => None, Some(c3) => Some((Some(e), c3)) } } },
+    }
+}
+pub open spec fn st_args(b: Seq<u8>) -> Option<(Option<Seq<u8>>, Seq<u8>)> {
+    match strip(b, lit_lp()) {
+        None => Some((None, b)),
+        Some(c1) => match sp_word(c1, 5) { None => None, Some((a, c2)) => match strip(c2, lit_rp()) { None => None, Some(c3) => Some((Some(a), c3)) } },
+    }
+}
+pub open spec fn st_optnum(gate: bool, b: Seq<u8>) -> Option<(Option<usize>, Seq<u8>)> {
+    if !gate { Some((None, b)) } else { match strip(b, lit_colon()) { None => Some((None, b)), Some(c1) => match sp_num(c1) { None => None, Some((v, c2)) => Some((Some(v), c2)) } } }
+}
+// everything up to the first byte of the class `kind` (no line-end rule: the plain `parse_until`)
+#[verifier::opaque]
+pub open spec fn sp_until(b: Seq<u8>, kind: int) -> Option<(Seq<u8>, Seq<u8>)> {
+    let k = find_first(b, kind);
+    if valid_utf8(b.subrange(0, k)) { Some((b.subrange(0, k), b.subrange(k, b.len() as int))) } else { None }
+}
+pub open spec fn sp_obf(b: Seq<u8>) -> Option<(Seq<u8>, Seq<u8>)> { sp_until(b, 0) }
+pub struct MemberSpec { pub start: Option<usize>, pub end: Option<usize>, pub ty: Seq<u8>, pub orig: Seq<u8>, pub args: Option<Seq<u8>>,
+                        pub ostart: Option<usize>, pub oend: Option<usize>, pub obf: Seq<u8>, pub rest: Seq<u8> }
+// The reference parser is written as a chain of continuations ms1 .. ms10 (one per grammar position) so that the proof of the real
+// parser can advance one position at a time: `member_spec(b0) == ms_k(parts so far, <spec of the next position>)`.
+pub open spec fn ms_init() -> MemberSpec {
+    MemberSpec { start: None, end: None, ty: Seq::empty(), orig: Seq::empty(), args: None, ostart: None, oend: None, obf: Seq::empty(), rest: Seq::empty() }
+}
+pub open spec fn member_spec(b0: Seq<u8>) -> Option<MemberSpec> { ms1(strip(b0, lit_4sp())) }
+#[verifier::opaque]
+pub open spec fn ms1(o: Option<Seq<u8>>) -> Option<MemberSpec> {
+    match o { None => None, Some(b1) => { let s = st_start(b1); ms2(MemberSpec { start: s.0, ..ms_init() }, st_end(s.0, s.1)) } }
+}
+#[verifier::opaque]
+pub open spec fn ms2(a: MemberSpec, o: Option<(Option<usize>, Seq<u8>)>) -> Option<MemberSpec> {
+    match o { None => None, Some((end, b3)) => ms3(MemberSpec { end: end, ..a }, sp_word(b3, 3)) }
+}
+#[verifier::opaque]
+pub open spec fn ms3(a: MemberSpec, o: Option<(Seq<u8>, Seq<u8>)>) -> Option<MemberSpec> {
+    match o { None => None, Some((ty, b4)) => ms4(MemberSpec { ty: ty, ..a }, strip(b4, lit_sp())) }
+}
+#[verifier::opaque]
+pub open spec fn ms4(a: MemberSpec, o: Option<Seq<u8>>) -> Option<MemberSpec> {
+    match o { None => None, Some(b5) => ms5(a, sp_word(b5, 4)) }
+}
+#[verifier::opaque]
+pub open spec fn ms5(a: MemberSpec, o: Option<(Seq<u8>, Seq<u8>)>) -> Option<MemberSpec> {
+    match o { None => None, Some((orig, b6)) => ms6(MemberSpec { orig: orig, ..a }, st_args(b6)) }
+}
+#[verifier::opaque]
+pub open spec fn ms6(a: MemberSpec, o: Option<(Option<Seq<u8>>, Seq<u8>)>) -> Option<MemberSpec> {
+    match o { None => None, Some((args, b7)) => ms7(MemberSpec { args: args, ..a }, st_optnum(args is Some, b7)) }
+}
+#[verifier::opaque]
+pub open spec fn ms7(a: MemberSpec, o: Option<(Option<usize>, Seq<u8>)>) -> Option<MemberSpec> {
+    match o { None => None, Some((ostart, b8)) => ms8(MemberSpec { ostart: ostart, ..a }, st_optnum(ostart is Some, b8)) }
+}
+#[verifier::opaque]
+pub open spec fn ms8(a: MemberSpec, o: Option<(Option<usize>, Seq<u8>)>) -> Option<MemberSpec> {
+    match o { None => None, Some((oend, b9)) => ms9(MemberSpec { oend: oend, ..a }, strip(b9, lit_arrow())) }
+}
+#[verifier::opaque]
+pub open spec fn ms9(a: MemberSpec, o: Option<Seq<u8>>) -> Option<MemberSpec> {
+    match o { None => None, Some(b10) => ms10(a, sp_obf(b10)) }
+}
+#[verifier::opaque]
+pub open spec fn ms10(a: MemberSpec, o: Option<(Seq<u8>, Seq<u8>)>) -> Option<MemberSpec> {
+    match o { None => None, Some((obf, b11)) => Some(MemberSpec { obf: obf, rest: b11, ..a }) }
+}
+// a failed position fails the line
+pub proof fn lemma_ms_none()
+    ensures
+        ms1(None) is None,
+        forall|a: MemberSpec| (#[trigger] ms2(a, None)) is None, forall|a: MemberSpec| (#[trigger] ms3(a, None)) is None,
+        forall|a: MemberSpec| (#[trigger] ms4(a, None)) is None, forall|a: MemberSpec| (#[trigger] ms5(a, None)) is None,
+        forall|a: MemberSpec| (#[trigger] ms6(a, None)) is None, forall|a: MemberSpec| (#[trigger] ms7(a, None)) is None,
+        forall|a: MemberSpec| (#[trigger] ms8(a, None)) is None, forall|a: MemberSpec| (#[trigger] ms9(a, None)) is None,
+        forall|a: MemberSpec| (#[trigger] ms10(a, None)) is None,
+{
+    reveal(ms1); reveal(ms2); reveal(ms3); reveal(ms4); reveal(ms5); reveal(ms6); reveal(ms7); reveal(ms8); reveal(ms9); reveal(ms10);
+}
+// how the record is assembled from the parts of the line
+pub open spec fn member_record_ok(rec: ProguardRecord, ms: MemberSpec) -> bool {
+    match rec {
+        ProguardRecord::Field { ty, original, obfuscated } => ms.args is None && str_bytes(ty) == ms.ty && str_bytes(original) == ms.orig && str_bytes(obfuscated) == ms.obf,
+        ProguardRecord::Method { ty, original, obfuscated, arguments, original_class, line_mapping } =>
+            ms.args is Some && str_bytes(arguments) == ms.args->0 && str_bytes(ty) == ms.ty && str_bytes(obfuscated) == ms.obf
+            && (match spec_last_dot(ms.orig) {
+                    Some(d) => original_class is Some && str_bytes(original_class->0) == ms.orig.subrange(0, d) && str_bytes(original) == ms.orig.subrange(d + 1, ms.orig.len() as int),
+                    None => original_class is None && str_bytes(original) == ms.orig })
+            && (line_mapping is Some) == (ms.start is Some && ms.end is Some && ms.start->0 > 0 && ms.end->0 > 0)
+            && (line_mapping is Some ==> line_mapping->0.startline == ms.start->0 && line_mapping->0.endline == ms.end->0
+                    && line_mapping->0.original_startline == ms.ostart && line_mapping->0.original_endline == ms.oend),
+        _ => false,
+    }
+}
 pub proof fn lemma_sfp_no_nl()
     ensures forall|j: int| 0 <= j < 32 ==> !spec_is_newline(#[trigger] lit_sfp()[j]), lit_sfp().len() == 32,
 { axiom_byte_literals(); }
@@ -467,7 +709,7 @@ pub proof fn lemma_sfp_no_nl()
         /*@L:every_well_formed_header_line_is_accepted:C05*/ (header_spec(bytes@) is Some && header_utf8_ok(bytes@)) ==> ret is Ok,
         /*@L:header_key_and_value_have_no_line_terminator:C06*/ match ret { Ok((ProguardRecord::Header { key, value }, _)) => str_no_nl(key) && opt_no_nl(value), _ => true },
         /*@L:header_record_taken_within_first_line:C06*/ ret is Ok ==> taken_within_first_line(bytes@, ret->Ok_0.1@),""")
-    f.body_start("let ghost b0 = bytes@;\n    proof { axiom_byte_literals(); reveal_strlit(\"sourceFile\"); if b0.len() >= 1 && b0[0] == 35u8 { assert(b0.subrange(0, 1) =~= seq![35u8]); } }\n")
+    f.body_start("let ghost b0 = bytes@;\n    proof { axiom_byte_literals(); reveal_strlit(\"sourceFile\"); reveal(scan_facts); reveal(first_hit); reveal(scan_raw); reveal(prefix_raw); reveal(split_ok); if b0.len() >= 1 && b0[0] == 35u8 { assert(b0.subrange(0, 1) =~= seq![35u8]); } }\n")
     f.after_stmt("let bytes = parse_prefix(bytes, b\"#\")", "    let ghost body = bytes@;\n    proof { assert(body =~= b0.subrange(1, b0.len() as int)); assert(b0.subrange(0, 1)[0] == 35u8); assert(b0[0] == 35u8); }\n")
     f.insert_after("if let Ok(bytes) = parse_prefix(bytes, SOURCE_FILE_PREFIX) {", "\n        let ghost v0 = bytes@;\n        proof { lemma_find_first_all(v0, 1); assert(has_prefix(body, lit_sfp())); assert(v0 =~= body.subrange(32, body.len() as int)); }")
     f.after_stmt("let (value, bytes) = parse_until", """        let ghost v1 = bytes@;
@@ -610,8 +852,8 @@ pub proof fn lemma_numeric_no_nl(b: Seq<u8>, k: int)
     char_class_shims(f)
     for occ in range(1, len(re.findall(r"\|c\|", f.orig)) + 1):
         f.closure("|c|", occ=occ, params="|c: &u8|", ret="r: bool", spec="ensures r == ({specbody})", spec_map=SPEC_MAP)
-    f.replace_all_re(r"parse_until\(bytes, is_newline\)", "parse_until(bytes, |b: &u8| -> (r: bool) ensures r == spec_is_newline(*b) { is_newline(b) })", "R3",
-                     why="fn item `is_newline` passed as predicate: eta-expanded into a closure carrying its contract", min_count=0)
+    f.replace_all_re(r"parse_until\(bytes, is_newline\)", "parse_until(bytes, as_exact(|b: &u8| -> (r: bool) ensures r == spec_is_newline(*b) { is_newline(b) }, Ghost(0)))", "R3",
+                     why="fn item `is_newline` passed as predicate: eta-expanded into a closure carrying its contract, wrapped (R12) as byte class 0", min_count=0)
     # R5 (trusted region): the three rsplitn statements
     f.replace_re(r"let mut split_class = original\.rsplitn\(2, '\.'\);\s*let original = split_class\.next\(\)\.ok_or\(ParseError \{\s*line: bytes,\s*kind: ParseErrorKind::ParseError\(\"line is not a valid proguard record\"\),\s*\}\)\?;\s*let original_class = split_class\.next\(\);",
                  """let ghost orig_full = str_bytes(original);
@@ -633,22 +875,32 @@ pub proof fn lemma_numeric_no_nl(b: Seq<u8>, k: int)
             Ok((_, _)) => false,
             Err(_) => true,
         },
+        /*@L:member_line_grammar:C05*/ match ret {
+            Ok((rec, rest)) => match member_spec(bytes@) { Some(ms) => rest@ == skip_nl(ms.rest) && member_record_ok(rec, ms), None => false },
+            Err(_) => member_spec(bytes@) is None,
+        },
         /*@L:member_record_taken_within_first_line:C06*/ ret is Ok ==> taken_within_first_line(bytes@, ret->Ok_0.1@),""")
-    f.body_start("let ghost b0 = bytes@;\n    proof { axiom_byte_literals(); lemma_consumed_refl(b0); assert(no_nl(b\"    \"@) && no_nl(b\":\"@) && no_nl(b\" \"@) && no_nl(b\"(\"@) && no_nl(b\")\"@) && no_nl(b\" -> \"@)); }\n")
+    f.body_start("let ghost b0 = bytes@;\n    proof { axiom_byte_literals_short(); lemma_ms_none(); lemma_consumed_refl(b0); assert(no_nl(b\"    \"@) && no_nl(b\":\"@) && no_nl(b\" \"@) && no_nl(b\"(\"@) && no_nl(b\")\"@) && no_nl(b\" -> \"@)); }\n")
     # every statement that rebinds `bytes` (at any nesting depth) is one parsing step: the consumed bytes contain no line terminator
     stmts = []
     for m in re.finditer(r"let\s+(?:\(\w+,\s*bytes\)|bytes)\s*=", f.orig):
         stmts.append(f.stmt_extent(m.start()))
     STEP = "proof { /*@L:consumed_bytes_stay_within_the_line:C06*/ lemma_consumed_refl(cur%d); lemma_consumed_trans(b0, cur%d, bytes@); }"
+    KIND_OF = {"ty": 3, "original": 4, "arguments": 5}
+    wrap_scans(f, KIND_OF)
+    top = [k for k, (a, b) in enumerate(stmts) if not any(x[0] < a and b <= x[1] for x in stmts if x != (a, b))]
     for k, (a, b) in enumerate(stmts):
         inner = [x for x in stmts if a < x[0] < b]
+        txt = f.orig[a:b]
+        mw = re.match(r"let\s+\((\w+),\s*bytes\)\s*=\s*parse_until_no_newline\(", txt)
+        mo = re.match(r"let\s+\((\w+),\s*bytes\)\s*=\s*parse_until\(", txt)
         f.insert_at(a, "let ghost cur%d = bytes@;\n    " % k)
+        if mw:
+            f.insert_at(b, "\n    proof { /*@L:component_is_the_reference_word:C05*/ assert(sp_word(cur%d, %d) == Some((str_bytes(%s), bytes@))); }" % (k, KIND_OF[mw.group(1)], mw.group(1)))
+        elif mo:
+            f.insert_at(b, "\n    proof { /*@L:obfuscated_name_runs_to_the_line_end:C05*/ assert(sp_obf(cur%d) == Some((str_bytes(%s), bytes@))); }" % (k, mo.group(1)))
         if inner:
             f.insert_at(b, "\n    proof { /*@L:consumed_bytes_stay_within_the_line:C06*/ assert(consumed_clean(b0, bytes@)); }")
-        elif re.match(r"let\s+\(obfuscated,\s*bytes\)\s*=\s*parse_until\(", f.orig[a:b]):
-            # the last scan uses the generic parse_until with `is_newline` itself as the stop set
-            f.insert_at(b, "\n    proof { /*@L:consumed_bytes_stay_within_the_line:C06*/ lemma_consumed_intro(cur%d, bytes@, str_bytes(obfuscated).len() as int); lemma_consumed_trans(b0, cur%d, bytes@);"
-                           " reveal(str_no_nl); assert forall|j: int| 0 <= j < str_bytes(obfuscated).len() implies !spec_is_newline(#[trigger] str_bytes(obfuscated)[j]) by { assert(str_bytes(obfuscated)[j] == cur%d[j]); } }" % (k, k, k))
         else:
             f.insert_at(b, "\n    " + STEP % (k, k))
     for m in re.finditer(r"Ok\(bytes\)\s*=>\s*\{", f.orig):
@@ -657,6 +909,60 @@ pub proof fn lemma_numeric_no_nl(b: Seq<u8>, k: int)
             continue
         k = max(encl, key=lambda k: stmts[k][0])
         f.insert_at(m.end(), "\n    " + STEP % (k, k))
+    # the reference grammar, one position at a time: after each top-level statement, `member_spec(b0)` is the continuation of the
+    # next position applied to the parts found so far (each step reveals exactly one continuation)
+    def top_stmt(var):
+        m = re.search(r"let\s+\(%s,\s*bytes\)\s*=" % var, f.orig)
+        if not m:
+            raise AnchorLost("parse_proguard_field_or_method: statement binding `%s` not found" % var)
+        a, b = f.stmt_extent(m.start())
+        k = [i for i, x in enumerate(stmts) if x == (a, b)]
+        if not k or k[0] not in top:
+            raise AnchorLost("parse_proguard_field_or_method: statement binding `%s` is not a top-level parsing step" % var)
+        return k[0], b
+    tops_prefix = [k for k in top if re.match(r"let\s+bytes\s*=\s*parse_prefix\(", f.orig[stmts[k][0]:stmts[k][1]])]
+    if len(tops_prefix) != 3:
+        raise AnchorLost("parse_proguard_field_or_method: expected three top-level parse_prefix steps, found %d" % len(tops_prefix))
+    p0, p1, p2 = tops_prefix
+    f.insert_at(stmts[p0][1], "\n    proof { /*@L:member_line_starts_with_four_spaces:C05*/ assert(member_spec(b0) == ms1(Some(bytes@))); }")
+    k1, e1 = top_stmt("startline")
+    f.insert_at(e1, """
+    let ghost a1 = MemberSpec { start: startline, ..ms_init() };
+    proof { /*@L:optional_start_line:C05*/ assert(st_start(cur%d) == (startline, bytes@));
+            assert(member_spec(b0) == ms2(a1, st_end(startline, bytes@))) by { reveal(ms1); } }""" % k1)
+    k2, e2 = top_stmt("endline")
+    f.insert_at(e2, """
+    let ghost a2 = MemberSpec { end: endline, ..a1 };
+    proof { /*@L:end_line_follows_a_start_line:C05*/ assert(st_end(startline, cur%d) == Some((endline, bytes@)));
+            assert(member_spec(b0) == ms3(a2, sp_word(bytes@, 3))) by { reveal(ms2); } }""" % k2)
+    k3, e3 = top_stmt("ty")
+    f.insert_at(e3, """
+    let ghost a3 = MemberSpec { ty: str_bytes(ty), ..a2 };
+    proof { assert(member_spec(b0) == ms4(a3, strip(bytes@, lit_sp()))) by { reveal(ms3); } }""")
+    f.insert_at(stmts[p1][1], "\n    proof { /*@L:one_space_between_type_and_name:C05*/ assert(member_spec(b0) == ms5(a3, sp_word(bytes@, 4))) by { reveal(ms4); } }")
+    k5, e5 = top_stmt("original")
+    f.insert_at(e5, """
+    let ghost a5 = MemberSpec { orig: str_bytes(original), ..a3 };
+    proof { assert(member_spec(b0) == ms6(a5, st_args(bytes@))) by { reveal(ms5); } }""")
+    k6, e6 = top_stmt("arguments")
+    f.insert_at(e6, """
+    let ghost a6 = MemberSpec { args: opt_bytes(arguments), ..a5 };
+    proof { /*@L:optional_argument_list:C05*/ assert(st_args(cur%d) == Some((opt_bytes(arguments), bytes@)));
+            assert(member_spec(b0) == ms7(a6, st_optnum(arguments is Some, bytes@))) by { reveal(ms6); } }""" % k6)
+    k7, e7 = top_stmt("original_startline")
+    f.insert_at(e7, """
+    let ghost a7 = MemberSpec { ostart: original_startline, ..a6 };
+    proof { /*@L:optional_original_start_line_only_after_arguments:C05*/ assert(st_optnum(arguments is Some, cur%d) == Some((original_startline, bytes@)));
+            assert(member_spec(b0) == ms8(a7, st_optnum(original_startline is Some, bytes@))) by { reveal(ms7); } }""" % k7)
+    k8, e8 = top_stmt("original_endline")
+    f.insert_at(e8, """
+    let ghost a8 = MemberSpec { oend: original_endline, ..a7 };
+    proof { /*@L:optional_original_end_line_only_after_a_start_line:C05*/ assert(st_optnum(original_startline is Some, cur%d) == Some((original_endline, bytes@)));
+            assert(member_spec(b0) == ms9(a8, strip(bytes@, lit_arrow()))) by { reveal(ms8); } }""" % k8)
+    f.insert_at(stmts[p2][1], "\n    proof { /*@L:arrow_before_the_obfuscated_name:C05*/ assert(member_spec(b0) == ms10(a8, sp_obf(bytes@))) by { reveal(ms9); } }")
+    k10, e10 = top_stmt("obfuscated")
+    f.insert_at(e10, """
+    proof { /*@L:line_is_the_reference_member_line:C05*/ assert(member_spec(b0) == Some(MemberSpec { obf: str_bytes(obfuscated), rest: bytes@, ..a8 })) by { reveal(ms10); } }""")
     f.insert_before("Ok((record, consume_leading_newlines(bytes)))", """proof {
         lemma_consumed_taken(b0, bytes@);
         // C05 sub-lemmas: how the record is assembled from the parsed components
